@@ -334,6 +334,24 @@ def run_flags_history(ctx):
                 ctx.count("pointer_texts_first_read_under_other_decoding_options")
         for text in ("$..*", "$.menu.*", "$.items[0].*", "$..[0]"):
             check_case(ctx, text, doc, "flags-history")
+    # the same for the environment's own flags: the normalized paths of matches whose member names need escapes are first
+    # read by the default environment while its escape decoding is switched off (what a caller does who retries a refused
+    # query "raw"), the flag is put back, and then every law is checked - through that same environment
+    doc2 = {"C:\\dir": {"a\\b": 1, "q'\"": [2, {"\n": 3}]}, "t\tab": {"\u0001": 4, "\\u0041": 5, "A": 6, "\\\\": 7, "\\": 8}, "plain": [9]}
+    env = jsonpath.DEFAULT_ENV
+    for flag_first in (False, True):
+        paths = [m.path for m in jsonpath.finditer("$..*", doc2)]
+        saved = env.unicode_escape
+        try:
+            env.unicode_escape = flag_first
+            for p_ in paths:
+                impl.call(env.findall, p_, doc2)
+                impl.call(env.compile, p_)
+                ctx.count("normalized_paths_first_read_under_another_escape_setting")
+        finally:
+            env.unicode_escape = saved
+        for text in ("$..*", "$.*.*", "$..[0,1]", "$['C:\\\\dir'].*"):
+            check_case(ctx, text, doc2, "flags-history")
 
 
 def run_async_interleaved(ctx):
